@@ -10,6 +10,7 @@ import (
 	"os"
 	"os/exec"
 	"path/filepath"
+	"sort"
 	"regexp"
 	"runtime"
 	"strconv"
@@ -1179,7 +1180,7 @@ func (e *Engine) runGoTest(src string) (string, bool) {
 	ovb, _ := json.Marshal(ov)
 	ovf := filepath.Join(dir, "ov.json")
 	os.WriteFile(ovf, ovb, 0o644)
-	cmd := exec.Command("go", "test", "-overlay", ovf, "-vet=off", "-count=1", "-timeout", "60s", "-v", "-run", "^TestGvcReplay$", ".")
+	cmd := exec.Command("go", "test", "-overlay", ovf, "-vet=off", "-count=1", "-timeout", "20s", "-v", "-run", "^TestGvcReplay$", ".")
 	cmd.Dir = e.RepoDir
 	cmd.Env = append(os.Environ(), "GOFLAGS=-mod=mod", "GOPROXY=off", "GOSUMDB=off", "GOTOOLCHAIN=local")
 	var out bytes.Buffer
@@ -1226,6 +1227,15 @@ func (e *Engine) confirmPost(res *FuncResult, g *Goal, w *Witness, out string, o
 // allDefAxioms: the defining equations of every recursive spec function (for evaluating concrete executions).
 func (e *Engine) allDefAxioms() string {
 	var b strings.Builder
+	if files, _ := filepath.Glob(filepath.Join(e.VerifDir, "spec", "eval", "*.smt2")); len(files) > 0 {
+		sort.Strings(files)
+		for _, f := range files {
+			if data, err := os.ReadFile(f); err == nil {
+				b.Write(data)
+				b.WriteString("\n")
+			}
+		}
+	}
 	for _, n := range sortedKeys(e.RecDefs) {
 		if ax, err := e.defAxiom(n); err == nil {
 			b.WriteString(ax + "\n")
